@@ -62,10 +62,18 @@ def fn_merge_table(ctx, rule="TABLE-Fn.merge"):
         raise AnalysisError(f"{construct}: stores are not keyed by one loop key ({len(keys)} keys)")
     key = next(iter(keys))
     it = [x for x in subterms(key) if x[0] == "iter"]
-    want_iter = ("binop", "|", call(N("builtins.set"), ("call", ("attr", X, "keys"), (), ())), call(N("builtins.set"), ("call", ("attr", X_, "keys"), (), ())))
-    alt_iter = ("binop", "|", want_iter[3], want_iter[2])
+    def keyset(t):
+        # set(d.keys()), set(d), d.keys(): the key set of the dictionary d
+        if is_call(t, name="builtins.set") and len(t[2]) == 1:
+            t = t[2][0]
+        if is_call(t) and t[1][0] == "attr" and t[1][2] == "keys" and not t[2]:
+            t = t[1][1]
+        return t
+    it_ok = False
+    if it and it[0][2][0] == "binop" and it[0][2][1] == "|":
+        it_ok = {keyset(it[0][2][2]), keyset(it[0][2][3])} == {X, X_}
     problems = []
-    if not it or it[0][2] not in (want_iter, alt_iter):
+    if not it_ok:
         problems.append(f"iterates the union of both key sets (found {short(it[0][2], ev, 120) if it else None})")
     xk, xk_ = ("idx", X, key), ("idx", X_, key)
     sub = ("call", ("attr", SELF, "merge"), (xk, xk_, CK), ())
